@@ -1,6 +1,6 @@
 From SV Require Import Base.ListX Store.Masked World.Env World.Join World.JoinProps World.JoinAbs World.JoinRefine
-  World.JoinAbsProps World.EnvSim.
-From Coq Require Import Sorting.Permutation.
+  World.JoinAbsProps World.EnvSim Bits.Hibit Bits.HibitIter Bits.HibitOrder Bits.HibitSet Bits.HibitExpr.
+From Coq Require Import Sorting.Permutation Sorting.Sorted.
 From SV Require Import Props.C07.
 Check (C07_parallel_is_sequential : forall e av eids hs n ms,
   join_ok e (JPar n) ms = true -> join_ok e (JSeq None) ms = true ->
@@ -27,3 +27,13 @@ Check (C07_visits_of_distinct_indices_do_not_interfere : forall unit av hs excl 
 Check (C07_join_refines_the_join_on_maps : forall unit av hs excl eids ms keys e S, absrel unit e S ->
   snd (visit_keys av hs excl eids ms keys e) = snd (a_visit_keys unit av hs excl eids ms keys S) /\
   absrel unit (fst (visit_keys av hs excl eids ms keys e)) (fst (a_visit_keys unit av hs excl eids ms keys S))).
+Check (C07_every_split_tree_yields_each_member_exactly_once : forall g P t, exact g P ->
+  exists outs, Forall2 (fun it o => drain_iter g (S (weight it)) it = Some o) (leaves g average_ones (fresh g) t) outs /\
+               concat outs = den g (fresh g) /\
+               StronglySorted N.lt (concat outs) /\ forall x, In x (concat outs) <-> P x).
+Check (C07_a_split_loses_and_repeats_nothing : forall g avg,
+  (forall w, avg w = None -> (length w <= 1)%nat) -> (forall l i, sorted (g l i)) -> forall it, top_only it ->
+  match split g avg it with
+  | (a, Some b) => den g a ++ den g b = den g it /\ top_only a /\ top_only b
+  | (a, None) => den g a = den g it /\ top_only a
+  end).
